@@ -206,6 +206,18 @@ fn main() {
                     run_block(&c, &mut out);
                     so.write_all(out.as_bytes()).unwrap();
                 }
+            } else if fam == "ep:wbound" {
+                for c in gen::gen_wbound(&mut rng) {
+                    let mut out = String::new();
+                    run_block(&c, &mut out);
+                    so.write_all(out.as_bytes()).unwrap();
+                }
+            } else if fam == "hs:cuts" {
+                for c in genhs::gen_cuts(&mut rng) {
+                    let mut out = String::new();
+                    run_block(&c, &mut out);
+                    so.write_all(out.as_bytes()).unwrap();
+                }
             } else if fam == "ep:utf8cuts" {
                 for c in gen::gen_utf8cuts(&mut rng) {
                     let mut out = String::new();
@@ -218,7 +230,7 @@ fn main() {
                     run_block(&c, &mut out);
                     so.write_all(out.as_bytes()).unwrap();
                 }
-            } else if let (Some(prof), false) = (fam.strip_prefix("ep:"), fam == "ep:pipe" || fam == "ep:exhaustive" || fam == "ep:maskpaths" || fam == "ep:slotrace" || fam == "ep:utf8cuts") {
+            } else if let (Some(prof), false) = (fam.strip_prefix("ep:"), fam == "ep:pipe" || fam == "ep:exhaustive" || fam == "ep:maskpaths" || fam == "ep:slotrace" || fam == "ep:utf8cuts" || fam == "ep:wbound") {
                 let prof = gen::profile_of(prof);
                 for i in 0..count {
                     let mut r = rng.fork();
